@@ -200,6 +200,9 @@ const UNITS_VOL: &[&str] = &["ml", "l", "L", "cup", "cups", "tsp", "tbsp", "fl o
 const UNITS_TIME: &[&str] = &["min", "minutes", "h", "hours", "s", "sec", "secs", "hour", "d", "minute"];
 const UNITS_UNKNOWN: &[&str] = &["pinch", "cloves", "sprigs", "big handfuls", "cans", "pieces"];
 const TEXT_VALUES: &[&[&str]] = &[&["some"], &["a", "pinch"], &["to", "taste"], &["half", "a", "dozen"], &["few"]];
+/// text values that begin with a number: only generated together with a `%unit`, because without `%`
+/// ADVANCED_UNITS documents `{1 scant}` as value 1 + unit `scant`
+const TEXT_VALUES_NUMLEAD: &[&[&str]] = &[&["1", "scant"], &["2", "heaped"], &["3", "or", "4"], &["1/2", "a"], &["1.5", "level"], &["2-3", "big"]];
 const NOTE_WORDS: &[&str] = &["finely", "chopped", "sifted", "room", "temperature", "large", "peeled", "crème"];
 const META_KEYS: &[&str] = &["note", "origin", "k1", "my key", "Kategorie", "x"];
 const ESCAPABLE: &[char] = &['@', '#', '~', '{', '}', '>', '=', '\\', '-', '['];
@@ -333,7 +336,15 @@ impl<'a> Gen<'a> {
                         (text, if text && self.rng.coin() { UnitClass::None } else { uc })
                     }
                 };
-                let val = if text { Val::Text(rng_text(self.rng)) } else { self.num_val(ext) };
+                let val = if text {
+                    if uc != UnitClass::None && self.rng.chance(1, 3) {
+                        Val::Text(self.rng.pick(TEXT_VALUES_NUMLEAD).iter().map(|s| s.to_string()).collect())
+                    } else {
+                        Val::Text(rng_text(self.rng))
+                    }
+                } else {
+                    self.num_val(ext)
+                };
                 let unit = self.unit_of(uc);
                 let lock = !text && self.rng.chance(1, 6);
                 let advanced = ext && !text && unit.is_some() && self.rng.chance(1, 4);
@@ -1017,6 +1028,9 @@ impl<'a> Sp<'a> {
         });
         if q.lock {
             self.constructs.push("scaling_lock");
+        }
+        if matches!(&q.val, Val::Text(ws) if ws[0].starts_with(|c: char| c.is_ascii_digit())) {
+            self.constructs.push("value_text_number_led");
         }
         if q.unit.is_some() {
             self.constructs.push(if q.advanced { "unit_advanced" } else { "unit_percent" });
